@@ -346,6 +346,7 @@ theorem sender_gone_is_final {cap : Nat} {s s' : State} (hc : 0 < cap) (h : Reac
                         all_goals exact ⟨hp, rfl⟩
       case wpLoad k => cases hst; unfold stepWpLoad; split <;> exact ⟨hp, rfl⟩
       case wpCas k => cases hst; unfold stepWpCas; split <;> exact ⟨hp, rfl⟩
+      case wpIdle k th => cases hst; unfold stepWpIdle; split <;> exact ⟨hp, rfl⟩
       case mUnlock k => cases hst; unfold stepMUnlock; split <;> exact ⟨hp, rfl⟩
       case xFlag d => cases hst; unfold stepXFlag; split <;> exact ⟨hp, rfl⟩
       case qDrop => cases hst; unfold stepQDrop; split <;> exact ⟨hp, rfl⟩
